@@ -329,6 +329,68 @@ def whJacKickVar (G eta dt soft : K) (sq : K → K) (x y z dx dy dz : K) : V3 K 
   let prefac2 := (-dt)*three*rdr*rj5M
   ⟨prefac1*dx + prefac2*x, prefac1*dy + prefac2*y, prefac1*dz + prefac2*z⟩
 
+/-! ## WHFast symplectic correctors as operator schedules (integrator_whfast.c:554-652)
+
+The primitives are exported by librebound and act on real *and* variational particles
+(`reb_whfast_kepler_step`, `reb_simulation_update_acceleration`, `reb_whfast_interaction_step`);
+only the refresh of the inertial positions from the Jacobi ones is done separately for the
+real particles and for every variational set. -/
+
+inductive WOp (K : Type) where
+  /-- `reb_whfast_kepler_step(r, a)` -/
+  | kepler (a : K)
+  /-- `reb_particles_transform_jacobi_to_inertial_pos(particles, p_jh, particles, N_real, N_active)` -/
+  | refreshReal
+  /-- the same for `particles+vc.index`, every variational configuration -/
+  | refreshVar
+  /-- `reb_simulation_update_acceleration(r)` -/
+  | acc
+  /-- `reb_whfast_interaction_step(r, b)` -/
+  | interaction (b : K)
+deriving Repr
+
+/-- `reb_whfast_corrector_Z(r, a, b)` as the code performs it, Jacobi coordinates (lines 561-577) -/
+def corrZPair (a b : K) : List (WOp K) :=
+  [.kepler a, .refreshReal, .refreshVar, .acc, .interaction (-b),
+   .kepler ((-two) * a), .refreshReal, .refreshVar, .acc, .interaction b, .kepler a]
+
+/-- the corrector of the real system alone (no variational particles) -/
+def corrZReal (a b : K) : List (WOp K) :=
+  [.kepler a, .refreshReal, .acc, .interaction (-b),
+   .kepler ((-two) * a), .refreshReal, .acc, .interaction b, .kepler a]
+
+/-- what each real operation becomes when variational particles ride along: only the refresh
+    has to be repeated for the variational sets, the other primitives handle them internally -/
+def dualiseOp : WOp K → List (WOp K)
+  | .refreshReal => [.refreshReal, .refreshVar]
+  | o => [o]
+
+/-- the `(a, b)` arguments of the successive `reb_whfast_corrector_Z` calls of
+    `reb_whfast_apply_corrector(r, inv, order)` (lines 599-651).  `as_` = `a_1..a_8`,
+    `bs` = the `b` constants of this order in source order (`b_o1, b_o2, …`).
+    Order 3 has its own sign pattern. -/
+def correctorStages (order : Nat) (inv dt : K) (as_ bs : List K) : List (K × K) :=
+  if order == 3 then
+    match as_, bs with
+    | a1 :: _, b1 :: _ => [(a1 * dt, (-inv) * b1 * dt), ((-a1) * dt, inv * b1 * dt)]
+    | _, _ => []
+  else
+    let n := bs.length
+    let ar := (as_.take n).reverse          -- a_n … a_1
+    let down := (ar.zip bs).map (fun p => ((-p.1) * dt, (-inv) * p.2 * dt))
+    let up := ((ar.zip bs).reverse).map (fun p => (p.1 * dt, inv * p.2 * dt))
+    down ++ up
+
+def correctorPair (order : Nat) (inv dt : K) (as_ bs : List K) : List (WOp K) :=
+  (correctorStages order inv dt as_ bs).flatMap (fun p => corrZPair p.1 p.2)
+
+def correctorReal (order : Nat) (inv dt : K) (as_ bs : List K) : List (WOp K) :=
+  (correctorStages order inv dt as_ bs).flatMap (fun p => corrZReal p.1 p.2)
+
+/-- run a schedule with a given interpretation of the primitives -/
+def runOps {S : Type} (step : WOp K → S → S) (ops : List (WOp K)) (s : S) : S :=
+  ops.foldl (fun st o => step o st) s
+
 /-! ## move_to_com, one Cartesian component at a time (tools.c:162-312)
 
 The six components x,y,z,vx,vy,vz are treated identically by the C code. -/
